@@ -15,7 +15,7 @@ pub fn prop() -> Prop {
         rule: "integers: 0, +-1, 2^k-1, 2^k, 2^k+1 for k=1..64 (both signs, clipped to [-2^63, 2^64)), 2^53+-{0,1,2}, the four range ends (~390 values), each through 10 pipeline routes (pass-through, select, sort, unique incl. neighbour pairs n/n+1, group-by, merge, split-by) and 30 non-arithmetic function routes; decimal strings: mantissas {0..12, 99, 100, 999, 10^k, 10^k-1 for k in 17..60, long digit runs} x scale {0,1,2,17,40} x exponent {none,0,+-1,+-100} x sign x spellings (leading/trailing zeros, e/E, +): all pairs over 120 (thorough 400) strings x \"+\" \"-\" \"*\" and six comparisons, plus abs, unary minus, || (value preserving, idempotent, canonical) on every string and 3-ary sums/products on a subset; non-trivial = |n| > 2^53 or a string with >= 17 digits or an exponent; distinct by construction; every integer also written on the command line (--set variable, --set macro, literal selection, literal inside --filter, inside a container literal); the ordering function of the number-as-string group (\"sort_by\" and an alias) over ~2n windows of 4-5 strings plus the whole list both ways, with one item lacking the key, x 8 key forms (member, parent via ^, --set variable, --set macro, set variable, defined macro, the strings themselves), compared with the stable order by exact value; every integer right after / between 9 kinds of number token that cannot be converted (a lone minus, empty exponents, a dangling point, overflowing exponents)",
         explanation: "integers are compared digit for digit (exact i128 on both sides after the strict reader); nas results are parsed as exact decimals and compared as rationals with num-bigint arithmetic, so the check does not depend on how jawk spells the result",
         assumptions: a,
-        guards: vec!["integer-after-a-malformed-number", "integer-on-the-command-line", "nas-sort-reorders", "nas-sort-ties", "above-2^53", "u64-max", "i64-min", "neighbours-stay-distinct", "long-mantissa", "big-exponent", "spelling-variant"],
+        guards: vec!["operands-with-a-constant-fall-back", "integer-after-a-malformed-number", "integer-on-the-command-line", "nas-sort-reorders", "nas-sort-ties", "above-2^53", "u64-max", "i64-min", "neighbours-stay-distinct", "long-mantissa", "big-exponent", "spelling-variant"],
         budget_s: (100, 2400),
         single_worker: false,
         run,
@@ -184,6 +184,11 @@ fn integers(ctx: &mut Ctx) {
             let two = format!("{d} {}", n + 1);
             expect_rows(ctx, &Case::owned(vec!["--unique".into()], inp(two.clone())), "unique-neighbours", n, vec![v.clone(), m.clone()]);
             expect_rows(ctx, &Case::owned(vec!["--merge".into(), "--sort-by=.".into()], inp(two.clone())), "sort-merge-neighbours", n, vec![V::Arr(vec![v.clone(), m.clone()])]);
+            // the top-N shortcut of a sort with --take: the better of two neighbours arrives when the buffer is full
+            let rev = format!("{} {d}", n + 1);
+            expect_rows(ctx, &Case::owned(vec!["--sort-by=.".into(), "--take=1".into()], inp(rev.clone())), "sort-take-neighbours", n, vec![v.clone()]);
+            expect_rows(ctx, &Case::owned(vec!["--sort-by=.=DESC".into(), "--take=1".into()], inp(two.clone())), "sort-desc-take-neighbours", n, vec![m.clone()]);
+            expect_rows(ctx, &Case::owned(vec!["--sort-by=.".into(), "--skip=1".into(), "--take=1".into()], inp(format!("{} {d} {d}", n + 1))), "sort-skip-take-neighbours", n, vec![v.clone()]);
             expect_rows(ctx, &Case::owned(vec!["--select=(= #0 #1)=eq".into(), "--select=(sort_unique .)=u".into()], inp(format!("[{d},{}]", n + 1))), "eq-neighbours", n, vec![V::Obj(vec![("eq".into(), V::Bool(false)), ("u".into(), V::Arr(vec![v.clone(), m.clone()]))])]);
             // the pair through equality-based collection functions (the values, not their order, are what is claimed)
             expect_rows(
@@ -376,6 +381,14 @@ fn nas(ctx: &mut Ctx) {
                 args.push(format!("--select=({c} #0 #1)=c{k}"));
             }
             args.push("--select=(= (\"||\" #0) (\"||\" #1))=canon".into());
+            // operands that are expressions with a constant fall-back (a valid decimal on an empty input): the value of
+            // THIS record counts
+            let fallback = (i + 2 * j) % 5 == 0;
+            if fallback {
+                args.push("--select=(\"<\" (default #0 \"0\") (? (array? .) #1 \"0\"))=dlt".into());
+                args.push("--select=(\"=\" (? (array? .) #0 \"1\") (default #1 \"1\"))=deq".into());
+                args.push("--select=(\"+\" (default #0 \"0\") (default #1 \"0\"))=dadd".into());
+            }
             if (i + j) % 7 == 0 {
                 args.push("--select=(\"+\" #0 #1 #0)=add3".into());
                 args.push("--select=(\"*\" #0 #1 #1)=mul3".into());
@@ -416,6 +429,17 @@ fn nas(ctx: &mut Ctx) {
                 if sget(&row, &format!("c{k}")) != Some(&V::Bool(*w)) {
                     bad = true;
                     ctx.violation("nas-comparison-wrong", cmp_names[k], &[case.clone()], format!("{w}"), format!("{:?} ({})", sget(&row, &format!("c{k}")).map(to_text), o.brief()));
+                }
+            }
+            if fallback {
+                ctx.guard("operands-with-a-constant-fall-back");
+                let dadd = match sget(&row, "dadd") {
+                    Some(V::Str(s)) => Dec::parse(s),
+                    _ => None,
+                };
+                if sget(&row, "dlt") != Some(&V::Bool(ord == Less)) || sget(&row, "deq") != Some(&V::Bool(ord == Equal)) || !dadd.map(|d| d.eq(&da.add(db))).unwrap_or(false) {
+                    bad = true;
+                    ctx.violation("nas-comparison-wrong", "operands given by expressions with a constant fall-back", &[case.clone()], format!("< {} = {} + {}", ord == Less, ord == Equal, da.add(db).show()), o.brief());
                 }
             }
             if sget(&row, "canon") != Some(&V::Bool(ord == Equal)) {
